@@ -277,3 +277,19 @@ Proof.
   split; [vm_compute; reflexivity|]. split; [vm_compute; reflexivity|].
   repeat constructor; simpl; intuition discriminate.
 Qed.
+
+(** the walk BEFORE the repair (G.edges(r) on a DiGraph = product arcs only) on A + B -> C, C -> A + B: every reactant
+    complex collapses to the zero complex: 3 complexes instead of 2, and the zero vector is listed although no side is empty *)
+Definition ex_rev : list rxn := firstn 2 ex_net.
+Lemma outarcs_only_refuted :
+  exists net, NoDup (map rid net) /\
+    fst (complex_graph net []) = [[1;1;0]; [0;0;1]]%Z /\
+    fst (complex_graph_outarcs_only net []) = [[0;0;0]; [0;0;1]; [1;1;0]]%Z /\
+    ~ (forall v, In v (fst (complex_graph_outarcs_only net [])) ->
+         exists e, In e net /\ (v = side_vec net [] (rlhs e) \/ v = side_vec net [] (rrhs e))).
+Proof.
+  exists ex_rev. split; [repeat constructor; simpl; intuition discriminate|].
+  split; [vm_compute; reflexivity|]. split; [vm_compute; reflexivity|].
+  intros H. destruct (H [0;0;0]%Z) as (e & I & E); [vm_compute; auto|].
+  destruct I as [<-|[<-|[]]]; vm_compute in E; destruct E as [E|E]; discriminate.
+Qed.
